@@ -23,6 +23,9 @@ def run_one(prop_id, tier, seed, repo, quiet=False):
     t0 = time.time()
     for k in oracle.stats:
         oracle.stats[k] = 0
+    from sa import facts as _facts
+    for k in _facts.STATS:
+        _facts.STATS[k] = 0
     spec = PROPS[prop_id]
     program = Program(repo)
     roles = Roles(program)
